@@ -155,7 +155,7 @@ func historyEvidence(c *core.Ctx, j job, vs []*vcs, log []event, per []*vcsObs, 
 
 // runHistory runs the history cases: numbers base.. in the order enumerated history scripts,
 // resubmission sequences. Counts are fixed per tier.
-func runHistory(c *core.Ctx, w *world, base int, fl map[string]bool) {
+func runHistory(c *core.Ctx, w *world, base int, fl map[string]bool) (next int) {
 	hs := historyJobs(c.Thorough())
 	nh := (len(hs) + chunk - 1) / chunk
 	for i := 0; i < nh; i++ {
@@ -186,6 +186,7 @@ func runHistory(c *core.Ctx, w *world, base int, fl map[string]bool) {
 		}
 		c.End(ci)
 	}
+	return base + nres
 }
 
 // histScript draws a script for a resubmission: clean in a third of the draws, otherwise
